@@ -403,7 +403,7 @@ static bool
 peekparen(void)
 {
 	static struct array pending;
-	struct token *t;
+	struct token *t, old;
 	struct frame *f;
 
 	t = ctxnext();
@@ -416,8 +416,11 @@ peekparen(void)
 		return false;
 	}
 	pending.len = 0;
+	/* a directive processed while looking ahead must not clobber the current token */
+	old = tok;
 	do t = arrayadd(&pending, sizeof(*t)), nextinto(t);
 	while (t->kind == TNEWLINE);
+	tok = old;
 	if (t->kind == TLPAREN)
 		return true;
 	t = pending.val;
